@@ -24,7 +24,7 @@ from hsim.worlds.http import FlowRecord, HttpWorld
 
 PROPERTY = "C15"
 CHUNK = {"quick": 10, "thorough": 24}
-PROBES = ["preempt_won_the_race", "waiter_took_response", "waiter_abandoned_while_subscribed", "preempt_after_release", "closed_session_collected", "session_closed_with_flows_parked", "released_after_its_session_closed",
+PROBES = ["rewritten_wrapper_request", "preempt_won_the_race", "waiter_took_response", "waiter_abandoned_while_subscribed", "preempt_after_release", "closed_session_collected", "session_closed_with_flows_parked", "released_after_its_session_closed",
           "response_of_a_closed_session_handled", "two_sessions_in_one_simulator", "take_resume_later", "take_never_resumed", "raise_in_request_hook", "raise_in_response_hook",
           "raise_in_subscriber", "raise_in_logger", "malformed_seed_request", "malformed_eq_request",
           "malformed_seed_response", "malformed_eq_response", "malformed_uploader_response", "malformed_login_response",
@@ -703,6 +703,19 @@ def run_plan(plan: dict) -> RunResult:
                         if rec.upstream is not None:
                             violate("C15/state/injected-response-but-upstream-contacted", tag=tag)
                             break
+                    if md.get("hsim_rewritten") and st["kind"] == "wrapper" and not md.get("hsim_injected"):
+                        # the event manager re-points wrapper requests at the real asset host afterwards, but it is the
+                        # addon's request (path and query as rewritten) that it re-points
+                        import urllib.parse as _up
+                        want_path = _up.urlsplit(md["hsim_rewritten"]).path
+                        seen_url = rec.upstream["url"] if rec.upstream is not None else \
+                            (rec.result["headers"].get("Location") if rec.result["status"] == 307 else None)
+                        if seen_url is not None:
+                            res.probe("rewritten_wrapper_request")
+                            if _up.urlsplit(seen_url).path != want_path:
+                                violate("C15/state/rewritten-url-lost", tag=tag, kind_="wrapper", upstream=seen_url,
+                                        rewritten=md["hsim_rewritten"])
+                                break
                     if md.get("hsim_rewritten") and not wrapper and rec.upstream is not None \
                             and rec.upstream["url"] != md["hsim_rewritten"]:
                         violate("C15/state/rewritten-url-lost", tag=tag, upstream=rec.upstream["url"])
